@@ -419,6 +419,22 @@ def r3_notify(ctx, rid='C06.R3'):
     for (name, cl), (got, loc) in sorted(sets.items()):
         missing = {'notify_send', 'notify_recv', 'notify_push'} - got
         r.check(not missing, 'closer|%s|%s' % (name, cl), loc, '%s after State::%s: notifies %s%s' % (core.short(name), cl, sorted(got), '' if not missing else '; MISSING %s — a task parked on that side of the stream is never woken when the stream closes' % sorted(missing)))
+    # (b2) the three Recv closers notify on EVERY path that does not return an error — an early return
+    #      "nothing changes for a closed stream" would leave tasks that parked after the close unwoken
+    for fname in (P + 'recv::Recv::recv_eof', P + 'recv::Recv::handle_error', P + 'recv::Recv::recv_reset', STREAM + '::set_reset'):
+        f = r.fn(fname)
+        if not f:
+            continue
+        for what in ('notify_send', 'notify_recv', 'notify_push'):
+            ns = [b for b, t2 in f.calls_to(STREAM + '::' + what)]
+
+            def on_term(us, bi, t, ns=ns):
+                return True if bi in ns else us
+            exits, ins, parent = core.scan(f, False, None, on_term)
+            bad = [(bi, rc, st) for (bi, us, rc, st) in exits if not us and not rc.startswith('Err')]
+            r.check(bool(ns) and not bad, 'closer-all-paths|%s|%s' % (fname.split('::')[-1], what), f.loc(bad[0][0]) if bad else f.file,
+                    '%s: every non-error path to a return passes %s' % (core.short(fname), what),
+                    witness=core.compress_path(f, [x['bb'] for x in core.witness_path(f, parent, bad[0][0], bad[0][2])]) if bad else None)
     # (c) Actions::send_reset and reset_on_recv_stream_err notify the receiver after Send::send_reset
     for fname in (P + 'streams::Actions::send_reset', P + 'streams::Actions::reset_on_recv_stream_err'):
         if not r.fn(fname):
